@@ -24,7 +24,7 @@ META = dict(
     partial=['densities themselves are scipy\'s'],
 )
 
-FAMS = ['uniform', 'norm', 'expon', 'beta', 'gamma', 'truncnorm']
+FAMS = ['uniform', 'norm', 'expon', 'beta', 'gamma', 'truncnorm', 't']
 
 
 def q2j(x):
@@ -62,6 +62,14 @@ def build(rng):
     for i, nm in enumerate(names):
         fam = rng.choice(FAMS)
         parent = rng.choice(names[:i]) if i and rng.random() < .5 and fam != 'beta' else None
+        if fam == 't':
+            # Student t with THREE arguments (df, loc, scale); loc and scale may both be parameters, and the scale parent may have been
+            # created BEFORE or AFTER the loc parent (positional order vs creation order)
+            pos = [s_[0] for s_ in spec if s_[1] in ('beta', 'gamma') and not any(isinstance(a, str) for a in s_[2])]     # positive parameters
+            scale = rng.choice(pos) if pos and rng.random() < .7 else rng.choice([0.5, 1.0, 2.0])
+            loc = rng.choice([n_ for n_ in names[:i] if n_ != scale] or [0.0]) if i and rng.random() < .7 else rng.choice([0.0, 1.0])
+            spec.append((nm, 't', [4.0, loc, scale]))
+            continue
         spec.append((nm, fam, dist_args(fam, rng, parent)))
     # declaration order may differ from dependency order for the constants only (parents must exist first)
     m = elfi.ElfiModel(name='pr')
@@ -151,6 +159,9 @@ def check(ctx):
                 got = float(np.ravel(prior.pdf(np.array(x)))[0])
                 lgot = float(np.ravel(prior.logpdf(np.array(x)))[0])
             where = dict(case, x=x)
+            if math.isnan(exp) or math.isnan(lexp):
+                ctx.count('point', 'conditional density undefined (invalid argument from a parent outside its support)')
+                continue
             if not math.isclose(got, exp, rel_tol=1e-9, abs_tol=1e-300) or (exp == 0) != (got == 0):
                 ctx.fail_input(where, 'pdf %r differs from the product of the conditional densities %r (requested %s)' % (got, exp, order), exp, got)
                 bad = True
